@@ -83,6 +83,33 @@ func NewWatcher(dirs ...string) (w *Watcher, err error) {
 	return w, nil
 }
 
+// NewOpenWatcher watches dirs (not recursively) for files being opened: the
+// kernel's own record of which files a piece of code has read, whatever it did
+// with the content.
+func NewOpenWatcher(dirs ...string) (w *Watcher, err error) {
+	fd, err := syscall.InotifyInit1(syscall.IN_NONBLOCK | syscall.IN_CLOEXEC)
+	if err != nil {
+		return nil, fmt.Errorf("inotify_init1: %w", err)
+	}
+	w = &Watcher{fd: fd, dirs: map[int32]string{}}
+	for _, d := range dirs {
+		wd, aerr := syscall.InotifyAddWatch(fd, d, syscall.IN_OPEN)
+		if aerr != nil {
+			_ = syscall.Close(fd)
+
+			return nil, fmt.Errorf("inotify_add_watch %s: %w", d, aerr)
+		}
+		w.dirs[int32(wd)] = d
+	}
+
+	return w, nil
+}
+
+// IsOpen reports whether e is the opening of a file (not of a directory).
+func (e FSEvent) IsOpen() (ok bool) {
+	return e.Mask&syscall.IN_OPEN != 0 && e.Mask&syscall.IN_ISDIR == 0
+}
+
 // Drain returns all events queued so far.  Events are queued by the kernel
 // inside the system call that causes them, so after a save has returned Drain
 // sees its complete history.
